@@ -405,10 +405,14 @@ inductive Op where
     `LogEntry::default()`), `true` = repaired (the next entry is `LogEntry::new()`) -/
 structure Variant where
   freshTs : Bool
+  /-- rib-in-pre output stream: `false` = as written (one `RotoOutputStream` for all payloads of an
+      `Update`, rib_unit/unit.rs:788), `true` = repaired (a new one per payload, as bgp-in and
+      bmp-in make one per message) -/
+  perRoute : Bool
   deriving DecidableEq, Repr
 
-def Variant.asWritten : Variant := ⟨false⟩
-def Variant.repaired : Variant := ⟨true⟩
+def Variant.asWritten : Variant := ⟨false, false⟩
+def Variant.repaired : Variant := ⟨true, true⟩
 
 def setMpReach (e : Entry) (u : Upd) : Entry :=
   match u.mpReach with
@@ -493,6 +497,7 @@ def noBmp : Bmp := ⟨.initiation, 0, none⟩
 /-- rib-in-pre: ONE stream for all payloads of an `Update` (rib_unit/unit.rs:788), drained after
     every payload; the entry under construction survives from one route to the next -/
 def runRoutes (v : Variant) (scripts : List (List Op)) : List (List Out) :=
+  if v.perRoute then scripts.map (runFresh v noBmp) else
   (scripts.foldl (fun (acc : Stream × List (List Out)) ops =>
       let s := run v noBmp ops acc.1
       ({ s with msgs := [] }, acc.2 ++ [s.msgs])) (Stream.new, [])).2
